@@ -162,20 +162,67 @@ def check_handle_failure():
     return None
 
 
+def check_synchronize():
+    """every job that _synchronize_workflows rolls back — the failed one and the upstream jobs dragged along — stays within the
+    limit: versions never pass max_retries, a request at the limit makes the call fail"""
+    for mr in [1, 2, 3]:
+        for versions in [(1, 1), (mr, 1), (1, mr), (mr, mr), (max(1, mr - 1), mr)]:
+            fm, ctx = mk(mr)
+
+            async def not_recovering(job_name):
+                return False
+
+            fm.is_recovering = not_recovering
+            reqs = []
+            for name, v in zip(("failed", "upstream"), versions):
+                r = fm.get_request(name)
+                r.version = v
+                reqs.append(r)
+            wf = SimpleNamespace(ports={})
+            try:
+                asyncio.run(fm._synchronize_workflows("failed", [], SimpleNamespace(), reqs, wf))
+                raised = False
+            except FailureHandlingException:
+                raised = True
+            over = [(r.name, r.version) for r in reqs if r.version > mr and r.version != 1]
+            if over or (not raised and any(v >= mr for v in versions)):
+                return {"unit": "_synchronize_workflows", "max_retries": mr, "versions_before": versions, "versions_after": [r.version for r in reqs], "raised": raised,
+                        "failure": "a job rolled back by the synchronisation passed the retry limit (or was re-run at the limit without an error)"}
+    return None
+
+
+def check_reduce_statuses():
+    """a FAILED job status that no CANCELLED one precedes makes the step FAILED, whatever follows"""
+    import itertools
+
+    from streamflow.workflow.step import _reduce_statuses
+
+    pool = [Status.COMPLETED, Status.FAILED, Status.CANCELLED, Status.SKIPPED, Status.RECOVERED]
+    for n in range(0, 5):
+        for combo in itertools.product(pool, repeat=n):
+            got = _reduce_statuses(list(combo))
+            first = next((x for x in combo if x in (Status.FAILED, Status.CANCELLED)), None)
+            if (first == Status.FAILED) != (got == Status.FAILED):
+                return {"unit": "_reduce_statuses", "statuses": [x.name for x in combo], "result": got.name,
+                        "failure": "the first FAILED/CANCELLED status must decide: a failed job fails the step"}
+    return None
+
+
 def replay(path):
     d = load_replay(path)
     unit = d["unit"]
     fn = {"RollbackFailureManager._update_request": check_update, "RollbackFailureManager.get_request": check_get_request,
           "RecoveryRequest.__init__": check_get_request, "DummyFailureManager.recover": check_dummy, "recoverable.wrapper@Try#0": check_wrapper,
-          "RollbackFailureManager._do_handle_failure": check_handle_failure}.get(unit)
+          "RollbackFailureManager._do_handle_failure": check_handle_failure, "RollbackFailureManager._synchronize_workflows": check_synchronize,
+          "_reduce_statuses": check_reduce_statuses}.get(unit)
     if fn is None:
         finish_replay(path, None, "(no native driver for this unit)")
     finish_replay(path, fn())
 
 
 def crosscheck(n):
-    bad = [x for x in (check_update(), check_get_request(), check_dummy(), check_wrapper(), check_handle_failure()) if x]
-    print(json.dumps({"inputs": 5, "native_contract_failures": len(bad), "samples": bad[:2]}))
+    bad = [x for x in (check_update(), check_get_request(), check_dummy(), check_wrapper(), check_handle_failure(), check_synchronize(), check_reduce_statuses()) if x]
+    print(json.dumps({"inputs": 7, "native_contract_failures": len(bad), "samples": bad[:2]}))
     sys.exit(1 if bad else 0)
 
 
